@@ -225,6 +225,7 @@ type GenState struct {
 	timeMode string
 	lastT    int64
 	wallBase int64
+	big      bool // a few histories keep everything in one huge segment (hundreds of messages)
 }
 
 const baseTime = int64(1_700_000_000_000_000)
@@ -232,6 +233,7 @@ const baseTime = int64(1_700_000_000_000_000)
 func newGenState(r *Rand, prof *Profile, histID string) *GenState {
 	g := &GenState{r: r, prof: prof, histID: histID}
 	g.pool, g.absent = drawKeyPool(r, prof.SmallKeys)
+	g.big = r.Chance(0.04)
 	g.timeMode = pick(r, prof.TimeModes)
 	g.lastT = baseTime + int64(r.Intn(1000))
 	if g.timeMode == "wall" {
@@ -305,8 +307,11 @@ func (g *GenState) genPublish() Op {
 	n := 1 + r.Intn(g.prof.MaxBatch)
 	if r.Chance(0.08) {
 		n = 0
-	} else if r.Chance(0.04) {
+	} else if r.Chance(0.04) || (g.big && r.Chance(0.5)) {
 		n = 20 + r.Intn(30) // more than the helpers' internal Consume batch of 32
+		if g.big {
+			n += 30
+		}
 	}
 	op := Op{Kind: "publish"}
 	for i := 0; i < n; i++ {
@@ -532,6 +537,9 @@ func (g *GenState) genOpenOpts(cfg ref.IndexCfg, everNonDec bool) OpenOpts {
 	r, p := g.r, g.prof
 	o := OpenOpts{KeyIndex: cfg.Keys, TimeIdx: cfg.Times}
 	o.Rollover = pick(r, p.Rollovers)
+	if g.big {
+		o.Rollover = 1 << 20
+	}
 	o.AutoSync = r.Chance(p.PAutoSync)
 	if !cfg.Times || everNonDec {
 		o.Check = r.Chance(p.PCheck)
